@@ -5,9 +5,9 @@ from props import stacklib as L
 
 ID = "C11"
 COQ_PROPS = "Props/C11.v"
-THEOREMS = ["C11_spacing_tol", "C11_congruent_tol", "C11_iff", "C11_dims", "C11_queries_refuse_together",
-            "C11_uneven_positions_refused", "C11_count_not_factoring_refused", "C11_uneven_spacing_refused",
-            "C11_uneven_vectors_refused", "C11_regular_grid_accepted", "C11_add", "C11_add_transactional"]
+THEOREMS = ["C11_spacing_tol", "C11_congruent_tol", "C11_iff", "C11_refuse", "C11_queries_refuse_together",
+            "C11_empty_refused", "C11_count_not_factoring_refused", "C11_uneven_spacing_refused",
+            "C11_regular_grid_accepted", "C11_add", "C11_add_transactional"]
 ALLOWED_AXIOMS = []
 RULE = ("synthetic in-memory DICOM series: S<=4 x T<=3 x V<=3 grids (thorough: S<=6, T<=4) in 7 orientations "
         "(axial, two in-plane rotations, sagittal, coronal, three 3-4-5 / 1-2-2 obliques) x both slice directions, "
@@ -82,7 +82,7 @@ def coq_case(case, obs):
     return L.coq_case(case, obs)
 
 
-CORR_REQUIRE = "From DV Require Import Stack.Model Stack.Corr."
+CORR_REQUIRE = "From Coq Require Import Qcanon.\nFrom DV Require Import Stack.Model Stack.Corr."
 CORR_CASE_TYPE = "Corr.case"
 CORR_CHECK = "Corr.check"
 CORR_SHOW = "Corr.show"
